@@ -114,10 +114,14 @@ def run(tier: str) -> Run:
     repo = Repo()
     run.analysed = {'modules': ['chopper.filtering'], 'digest': repo.digest.hexdigest()}
     run.trusted = ['sa/scipp_model.py', 'scipp group/bins semantics (not analysed)']
-    fi = repo.func('chopper.filtering', '_derive')
+    try:
+        fi = repo.func('chopper.filtering', '_derive')
+    except AnalysisError:
+        fi = None  # a private helper: the slope is decided inside find_plateaus below (R1 public instances, R2)
 
-    r1 = run.rule('R1', 'slope term and dtype discipline of _derive for float / int / datetime coordinates', 3)
-    for xdt in ('float64', 'int64', 'datetime64'):
+    r1 = run.rule('R1', 'slope term and dtype discipline for float / int / datetime coordinates: find_plateaus groups by the documented slope without lossy '
+                        'conversions (the slope helper is also decided on its own where it exists)', 3)
+    for xdt in (('float64', 'int64', 'datetime64') if fi is not None else ()):
         def args(it, xdt=xdt):
             x = make_param(it, 'x', P(dim='T', positive=False), dtype=xdt)
             y = make_param(it, 'y', P(dim='FREQ', positive=False))
@@ -150,8 +154,8 @@ def run(tier: str) -> Run:
     pm = PlateauModel()
     pit = PlateauInterp(repo, pm)
 
-    def plateau_args(i):
-        x = make_param(i, 'x', P(dim='T', positive=False))
+    def plateau_args(i, xdt='float64'):
+        x = make_param(i, 'x', P(dim='T', positive=False), dtype=xdt)
         y = make_param(i, 'y', P(dim='FREQ', positive=False))
         da = SVar(y.term, y.unit, y.dtype, origin='da')
         da.kind = 'dataarray'
@@ -203,9 +207,55 @@ def run(tier: str) -> Run:
         r2.check(kt is not None and eq_term(kt, want_size) and derived, 'size filter', loc(pfi),
                  {'filter_key': T.show(kt) if kt is not None else [repr(k) for k in keys], 'expected': T.show(want_size), 'result_is_the_filtered_groups': derived}, key='size')
 
-    r3 = run.rule('R3', 'collapse: low = bins.min, high = next representable above bins.max; _next_highest arms', 4)
+    # R1 on the public function: the same grouping coordinate for integer and datetime time stamps, no lossy conversion on the way
+    for xdt in ('float64', 'int64', 'datetime64'):
+        T.reset()
+        pm1 = PlateauModel()
+        pit1 = PlateauInterp(repo, pm1)
+        snaps1: list = []
+
+        def args1(i, xdt=xdt, pm1=pm1, snaps1=snaps1):
+            x = make_param(i, 'x', P(dim='T', positive=False), dtype=xdt)
+            y = make_param(i, 'y', P(dim='FREQ', positive=False))
+            da = SVar(y.term, y.unit, y.dtype, origin='da')
+            da.kind = 'dataarray'
+            da.members['coords'] = {'*': x}
+            da.members['dims'] = ['t']
+            i.track(da)
+            atol = make_param(i, 'atol', P(dim='FREQ/T'))
+            mn = make_param(i, 'min_n', P(dim='ONE', unit=NO_UNIT), dtype='int64')
+            pm1.reset()
+            try:
+                return i.call_function(pfi, [da], {'atol': atol, 'min_n_points': mn})
+            finally:
+                snaps1.append(pm1.snapshot())
+        outs1 = pit1.run_all(args1)
+        rets1 = [o for o in outs1 if o.kind == 'return']
+        inst = f'find_plateaus[x={xdt}]'
+        if len(rets1) != 1:
+            r1.fail(inst, loc(pfi), {'outcomes': [(o.kind, o.exc_type, o.where) for o in outs1]}, key='derive-public')
+            continue
+        pm1.restore(snaps1[outs1.index(rets1[0])])
+        gid1 = None
+        if len(pm1.groups) == 1:
+            recv1, gargs1, _ = pm1.groups[0]
+            for obj, where_, key, val in pm1.stores:
+                if where_ == 'coords' and gargs1 and key is gargs1[0] and (obj is recv1 or obj.view_of is recv1 or recv1.view_of is obj):
+                    gid1 = val
+        xs1, ys1 = Rat.sym('x'), Rat.sym('y')
+        slope1 = (idx(ys1, 'slice(1, None, None)') - idx(ys1, 'slice(None, -1, None)')) / (idx(xs1, 'slice(1, None, None)') - idx(xs1, 'slice(None, -1, None)'))
+        want1 = Rat.fn('concat', Rat.const(0), Rat.fn('cumsum', T.fn_cmp('>', T.fn_abs(slope1), Rat.sym('atol', positive=True))))
+        got1 = gid1.term if isinstance(gid1, SVar) else None
+        lossy1 = [dict(e.detail, where=e.where) for e in events(rets1[0], 'int-unit-conversion', 'narrowing-cast')]
+        r1.check(got1 is not None and eq_term(got1, want1) and not lossy1, inst, loc(pfi),
+                 {'grouping_coordinate': T.show(got1) if got1 is not None else repr(gid1), 'expected': T.show(want1), 'lossy_conversions': lossy1[:2]}, key='derive-public')
+
+    r3 = run.rule('R3', 'collapse: low = bins.min, high = next representable above bins.max (float: nextafter; integer / datetime: one unit)', 4)
     cfi = repo.func('chopper.filtering', 'collapse_plateaus')
-    nfi = repo.func('chopper.filtering', '_next_highest')
+    try:
+        nfi = repo.func('chopper.filtering', '_next_highest')
+    except AnalysisError:
+        nfi = None  # decided through collapse_plateaus above for all four dtypes
     for edt in ('float64', 'float32', 'int64', 'datetime64'):
         T.reset()
         pm = PlateauModel()
@@ -251,7 +301,7 @@ def run(tier: str) -> Run:
         r3.check(got is not None and eq_term(got, want) and mean_ok and dt_ok, inst, loc(cfi),
                  {'edge_coordinate': T.show(got) if got is not None else None, 'expected': T.show(want), 'data_is_bins_mean': mean_ok,
                   'edge_dtype': stored[-1].dtype if stored else None}, key=inst)
-    for xdt in ('int64', 'datetime64'):
+    for xdt in (('int64', 'datetime64') if nfi is not None else ()):
         outs = run_kernel(repo, nfi, {'x': P(dim='T', positive=False)}, dtypes={'x': xdt})
         ok = len(outs) == 1 and outs[0].kind == 'return' and isinstance(outs[0].value, SVar) and outs[0].value.term is not None
         detail = {}
